@@ -837,7 +837,7 @@ class Pregex():
         pattern = self._concat_conditional_group()
         pre = pre._concat_conditional_group()
 
-        pattern = pattern + pre if on_right else pre + pattern
+        pattern = __class__.__join(pattern, pre) if on_right else __class__.__join(pre, pattern)
 
         return __class__(pattern, escape=False)
 
@@ -879,7 +879,7 @@ class Pregex():
             ``Pregex`` instance nor a string.
         '''
         pre = __class__._to_pregex(pre)._concat_conditional_group()
-        pattern = f"{pre}{self._concat_conditional_group()}{pre}"
+        pattern = __class__.__join(__class__.__join(pre, self._concat_conditional_group()), pre)
         return __class__(pattern, escape=False)
         
 
@@ -1206,6 +1206,22 @@ class Pregex():
         else returns ``False``.
         '''
         return self.__repeatable
+
+
+    @staticmethod
+    def __join(left: str, right: str) -> str:
+        '''
+        Concatenates two RegEx patterns. A numeric backreference at the end \
+        of the first one is kept apart from a digit at the start of the second, \
+        or else the two would be read as a single, longer reference.
+
+        :param str left: The pattern on the left.
+        :param str right: The pattern on the right.
+        '''
+        if right[:1] in tuple("0123456789") and \
+            _re.search(r"(?<!\\)(?:\\\\)*\\[1-9]\d?$", left) is not None:
+            return f"{left}(?:){right}"
+        return left + right
 
 
     def _concat_conditional_group(self) -> str:
